@@ -126,7 +126,8 @@ theorem AMap.get_eraseIf_self (m : AMap) (k : Key) (v : Pid) : (AMap.eraseIf m k
 /-! ### the invariant -/
 
 /-- `unregisterConnection(p)` is only ever pending in a thread after `p`'s connection closed -/
-def TasksOK (closed : Pid → Bool) (ts : List Task) : Prop := ∀ p, Task.unreg p ∈ ts → closed p = true
+def TasksOK (closed : Pid → Bool) (ts : List Task) : Prop :=
+  (∀ p, Task.unreg p ∈ ts → closed p = true) ∧ (∀ p f o, Task.unregWrite p f o ∉ ts)
 
 structure Inv (c : Cfg) (s : Sys) : Prop where
   idsKey    : ∀ k p, s.ids.get k = some p → c.idOf p = k
@@ -173,10 +174,24 @@ theorem tasksOK_set {closed : Pid → Bool} {l : List (List Task)} {t : Nat} {ne
   · exact h ▸ hnew
 
 theorem TasksOK.tail {closed : Pid → Bool} {a : Task} {ts : List Task} (h : TasksOK closed (a :: ts)) : TasksOK closed ts :=
-  fun p hp => h p (List.mem_cons_of_mem _ hp)
+  ⟨fun p hp => h.1 p (List.mem_cons_of_mem _ hp), fun p f o hp => h.2 p f o (List.mem_cons_of_mem _ hp)⟩
 
 theorem TasksOK.mono {c1 c2 : Pid → Bool} {ts : List Task} (h : TasksOK c1 ts) (hc : ∀ x, c1 x = true → c2 x = true) :
-    TasksOK c2 ts := fun p hp => hc p (h p hp)
+    TasksOK c2 ts := ⟨fun p hp => hc p (h.1 p hp), h.2⟩
+
+/-- pushing tasks that are neither `unreg` nor `unregWrite` in front of an admissible stack -/
+theorem TasksOK.cons {closed : Pid → Bool} {a : Task} {ts : List Task} (h : TasksOK closed ts)
+    (h1 : ∀ p, a = Task.unreg p → closed p = true) (h2 : ∀ p f o, a ≠ Task.unregWrite p f o) :
+    TasksOK closed (a :: ts) := by
+  constructor
+  · intro p hp
+    rcases List.mem_cons.mp hp with hp | hp
+    · exact h1 p hp.symm
+    · exact h.1 p hp
+  · intro p f o hp
+    rcases List.mem_cons.mp hp with hp | hp
+    · exact h2 p f o hp.symm
+    · exact h.2 p f o hp
 
 theorem upd_true_mono (f : Pid → Bool) (p x : Pid) (h : f x = true) : upd f p true x = true := by
   unfold upd; split <;> simp [h]
@@ -355,13 +370,9 @@ theorem stepTask_inv {c : Cfg} {s s' : Sys} {t : Nat} {task : Task} {rest : List
         | some e =>
           rw [hid] at hs; injection hs with hs; subst hs
           refine h.frame rfl rfl h.free (fun _ a => a) rfl rfl rfl (hset _ ?_)
-          intro q hq
-          simp only [List.mem_cons] at hq
-          rcases hq with hq | hq | hq | hq
-          · cases hq
-          · cases hq
-          · cases hq
-          · exact hrest q hq
+          exact ((hrest.cons (by intro q hq; cases hq) (by intro q f o hq; cases hq)).cons
+            (by intro q hq; cases hq) (by intro q f o hq; cases hq)).cons
+            (by intro q hq; cases hq) (by intro q f o hq; cases hq)
         | none =>
           rw [hid] at hs; injection hs with hs; subst hs
           exact register_inv h hid (fun hf => by rw [hk] at hf; cases hf) (hset _ hrest)
@@ -386,10 +397,9 @@ theorem stepTask_inv {c : Cfg} {s s' : Sys} {t : Nat} {task : Task} {rest : List
         have hmono : ∀ x, s.closed x = true → upd s.closed p true x = true := fun x hx => upd_true_mono _ _ _ hx
         refine h.frame rfl rfl h.free hmono rfl rfl rfl ?_
         refine tasksOK_set (fun ts hts => (h.tasksOK ts hts).mono hmono) ?_
+        refine (hrest.mono hmono).cons ?_ (by intro q f o hq; cases hq)
         intro q hq
-        rcases List.mem_cons.mp hq with hq | hq
-        · injection hq with hq; subst hq; exact upd_same _ _ _
-        · exact hmono q (hrest q hq)
+        injection hq with hq; subst hq; exact upd_same _ _ _
     | lookupId k =>
       simp only [stepTask, hfree, Bool.false_eq_true, if_false] at hs
       injection hs with hs; subst hs
@@ -413,16 +423,14 @@ theorem stepTask_inv {c : Cfg} {s s' : Sys} {t : Nat} {task : Task} {rest : List
   | unreg p =>
     simp only [stepTask, hfree, Bool.false_eq_true, if_false, Mode.repaired, if_true] at hs
     injection hs with hs; subst hs
-    have hcl : s.closed p = true := h.tasksOK _ hmem p (List.mem_cons_self ..)
+    have hcl : s.closed p = true := (h.tasksOK _ hmem).1 p (List.mem_cons_self ..)
     refine unreg_inv h hcl (hset _ ?_)
-    intro q hq
-    rcases List.mem_cons.mp hq with hq | hq
-    · cases hq
-    · exact hrest q hq
+    exact hrest.cons (by intro q hq; cases hq) (by intro q f o hq; cases hq)
   | fire p f =>
     simp only [stepTask] at hs
     injection hs with hs; subst hs
     exact h.frame rfl rfl h.free (fun _ a => a) rfl rfl rfl (hset _ hrest)
+  | unregWrite p f o => exact absurd (List.mem_cons_self ..) ((h.tasksOK _ hmem).2 p f o)
 
 theorem step_inv {c : Cfg} {s s' : Sys} {t : Nat} (h : Inv c s) (hs : step Mode.repaired c s t = some s') : Inv c s' := by
   unfold step at hs
@@ -455,10 +463,12 @@ theorem mkSys_inv (c : Cfg) (threads : List (List Call)) : Inv c (mkSys threads)
   sameSet := by intro _ p; exact ⟨(fun h => by cases h), (fun h => by cases h)⟩
   tornClosed := by intro p h; cases h
   tasksOK := by
-    intro ts hts p hp
+    intro ts hts
     simp only [mkSys, List.mem_map] at hts
     obtain ⟨cs, _, rfl⟩ := hts
-    simp at hp
+    constructor
+    · intro p hp; simp at hp
+    · intro p f o hp; simp at hp
 
 /-- what one atomic action of the repaired machine can do to the two indices -/
 inductive StepKind (c : Cfg) (s s' : Sys) (t : Nat) : Prop where
@@ -533,17 +543,20 @@ theorem step_kind {c : Cfg} {s s' : Sys} {t : Nat} (hs : step Mode.repaired c s 
     simp only [stepTask] at hs
     injection hs with hs; subst hs; exact .same rfl rfl
   | unreg p =>
-    simp only [stepTask, Mode.repaired, if_true] at hs
+    simp only [stepTask, Mode.repaired, if_true, Bool.false_eq_true, if_false] at hs
     split at hs
     · cases hs
     · injection hs with hs; subst hs; exact .unreg p rest hth rfl rfl
   | fire p f =>
     simp only [stepTask] at hs
     injection hs with hs; subst hs; exact .same rfl rfl
+  | unregWrite p f o =>
+    simp [stepTask, Mode.repaired] at hs
 
 /-- with `muP` free every pending task is enabled -/
-theorem step_enabled {c : Cfg} {s : Sys} {t : Nat} {task : Task} {rest : List Task} (m : Mode) (hfree : s.held = none)
-    (hth : s.threads[t]? = some (task :: rest)) : (step m c s t).isSome = true := by
+theorem step_enabled {c : Cfg} {s : Sys} {t : Nat} {task : Task} {rest : List Task} (hfree : s.held = none)
+    (hth : s.threads[t]? = some (task :: rest)) (hno : ∀ p f o, task ≠ Task.unregWrite p f o) :
+    (step Mode.repaired c s t).isSome = true := by
   unfold step
   rw [hth]
   simp only
@@ -558,9 +571,10 @@ theorem step_enabled {c : Cfg} {s : Sys} {t : Nat} {task : Task} {rest : List Ta
     all_goals rfl
   | setDup e => rfl
   | unreg p =>
-    simp only [stepTask, hfree, Option.isSome_none, Bool.false_eq_true, if_false]
-    split <;> rfl
+    simp only [stepTask, hfree, Option.isSome_none, Bool.false_eq_true, if_false, Mode.repaired, if_true]
+    rfl
   | fire p f => rfl
+  | unregWrite p f o => exact absurd rfl (hno p f o)
 
 /-- states reachable by the repaired machine from an empty registry, for any programs and any schedule -/
 def Reachable (c : Cfg) (s : Sys) : Prop :=
